@@ -926,8 +926,6 @@ record_outcome(void) {
 		if (0 == ex_out_tbl[pos]) {
 			ex_out_tbl[pos] = h;
 			ex_outcomes ++;
-			if (ex_outcomes <= 3000)
-				printf("OUT\t%s\t%016llx\n", ex_sc->name, (unsigned long long)h);
 			return;
 		}
 		pos = (pos + 1) & (EX_OUT_TBL - 1);
